@@ -94,6 +94,12 @@ def correspondence(ctx):
     n_rand = ctx.n(600, 20000)
     for _ in range(n_rand):
         trees.append(ul.rand_tree(rng, rng.choice([2, 3, 3, 4, 5]), leafgen))
+    # operand forms the grammar does not cover but propagate_units must survive (units stay unknown)
+    x, y = ul.leaf([ul.item("m", 1)]), ul.leaf([ul.item("s", -1), ul.item("kg", 2)])
+    trees += [["bin", "pow", ul.cst(2), x], ["bin", "pow", x, y], ["bin", "mul", ["bin", "pow", x, y], y],
+              ["bin", "pow", ["bin", "pow", x, ul.cst(2)], ul.cst(Fraction(1, 2))], ["bin", "log", ul.cst(2), x],
+              ["bin", "log", x, y], ["bin", "add", ["un", "sin", x], y], ["bin", "pow", ["bin", "mul", ul.cst(3), x], ul.cst(0)],
+              ["bin", "add", ["bin", "pow", x, ul.cst(0)], y], ["un", "sqrt", ["bin", "pow", y, ul.cst(0)]]]
     entries, skipped = [], 0
     for t in trees:
         frac = rng.random() < 0.1
